@@ -199,10 +199,15 @@ pub struct HistoryOut {
 /// Any panic is caught and reported in-band. Returns Err for harness-level problems
 /// (patch does not parse / has no file patch) which callers treat as generator bugs.
 pub fn run_history(file: Option<&[u8]>, perms: Option<u32>, texts: &[Vec<u8>], steps: &[Step], do_rollback: bool) -> Result<Result<HistoryOut, String>, String> {
+    run_history_strip(file, perms, texts, steps, do_rollback, 0)
+}
+
+/// the same, the patch texts parsed with -p<strip> (names that are only acceptable after stripping)
+pub fn run_history_strip(file: Option<&[u8]>, perms: Option<u32>, texts: &[Vec<u8>], steps: &[Step], do_rollback: bool, strip: usize) -> Result<Result<HistoryOut, String>, String> {
     quiet_panics();
     let mut parsed: Vec<TextPatch> = Vec::new();
     for t in texts {
-        match catch_unwind(AssertUnwindSafe(|| parse_patch(t, 0, false))) {
+        match catch_unwind(AssertUnwindSafe(|| parse_patch(t, strip, false))) {
             Ok(Ok(p)) => {
                 if p.file_patches.is_empty() {
                     return Err("patch text has no file patch".into());
